@@ -39,6 +39,18 @@ checks = {
  "C02": dict(harness="hcore", design="§6 C02",
    text="Whole-core simulation (one OS process per run): the real RPC methods, environment manager and FSM, task manager, scheduler handlers, command queue, workflow loading, Consul client and mesos-go controller against simmesos/simconsul; per task and per transition an outcome is drawn (ok, error reply staying / going to ERROR, silent, undeliverable, dies; for DEPLOY: starts, late, fails, never). Oracle: each API request succeeds iff every critical active task acknowledged, destination never reported and error returned otherwise, environment in ERROR afterwards, every request returns; crashes of the core are violations.",
    note="simmesos is a model written from the Mesos scheduler API documentation; RPC methods are invoked on the RpcServer object (no gRPC transport); violations are confirmed by replaying the recorded tape in a fresh process (not shrunk)."),
+ "C03": dict(harness="hcore", design="§6 C03",
+   text='Whole-core simulation: an environment in CONFIGURED or RUNNING, a victim task and a failure kind (TASK_FAILED/LOST/KILLED, executor or agent FAILURE, TASK_INTERNAL_ERROR) injected at a drawn instant, idle or racing with a transition; oracle: a critical victim drives the environment to ERROR within 150 simulated s and the end of the run is recorded; a non-critical victim changes nothing beyond what clients asked for.',
+   note='simmesos/simconsul are models; RPC methods are invoked on the RpcServer object; one OS process per run; violations are confirmed by replay in a fresh process (tapes not shrunk).'),
+ "C04": dict(harness="hcore", design="§6 C04",
+   text='Whole-core simulation with several environments over shared hosts and detectors and concurrent create/control/destroy/cleanup clients; oracles at every observation and over the call history at the simulated master: detectors pairwise disjoint, no KILL of a task owned by an environment nobody destroys, requests return.',
+   note='simmesos/simconsul are models; RPC methods are invoked on the RpcServer object; one OS process per run; violations are confirmed by replay in a fresh process (tapes not shrunk).'),
+ "C06": dict(harness="hcore", design="§6 C06",
+   text='Whole-core simulation of destroys in every state with every flag combination and of creations failing at template load, deployment and configuration, with DESTROY hook tasks; oracles: nothing of a vanished environment stays listed or owned, every task it owned was asked to terminate unless keep-tasks, no success while still listed, leftovers fall to the next cleanup.',
+   note='simmesos/simconsul are models; RPC methods are invoked on the RpcServer object; one OS process per run; violations are confirmed by replay in a fresh process (tapes not shrunk).'),
+ "C18": dict(harness="hcore", design="§6 C18",
+   text='Whole-core simulation with crash (incarnation frozen at a drawn decision; only simconsul and simmesos survive) and restart, or subscription drop and re-subscribe; oracles: same framework identity after restart, every surviving task of the previous life killed, no environment listed; reconciliation after a mere reconnection kills nothing owned and changes no state.',
+   note='simmesos/simconsul are models; RPC methods are invoked on the RpcServer object; one OS process per run; violations are confirmed by replay in a fresh process (tapes not shrunk).'),
 }
 
 na = {
